@@ -771,6 +771,11 @@ def resume_tests(script_parts, options, features, layers, failures, errors,
     # Get an object that (only) accepts bytes
     stdout = _get_output_buffer(sys.stdout)
     while ready_threads or running_threads:
+        if (options.stop_on_error and options.processes == 1
+                and (failures or errors)):
+            # In a sequential run --stop-on-error means that no further
+            # layer is set up once a failure or an error is known.
+            del ready_threads[:]
         while len(running_threads) < options.processes and ready_threads:
             thread = ready_threads.pop(0)
             thread.start()
